@@ -38,6 +38,9 @@ import (
 	"time"
 
 	"seehuhn.de/go/pdf"
+	"seehuhn.de/go/pdf/action"
+	annotdecode "seehuhn.de/go/pdf/annotation/decode"
+	"seehuhn.de/go/pdf/destination"
 	"seehuhn.de/go/pdf/font"
 	"seehuhn.de/go/pdf/font/dict"
 	"seehuhn.de/go/pdf/font/glyphdata"
@@ -52,8 +55,10 @@ import (
 	"seehuhn.de/go/pdf/numtree"
 	"seehuhn.de/go/pdf/outline"
 	"seehuhn.de/go/pdf/page"
+	"seehuhn.de/go/pdf/pagelabel"
 	"seehuhn.de/go/pdf/pagetree"
 	"seehuhn.de/go/pdf/reader"
+	"seehuhn.de/go/pdf/walker"
 
 	"seehuhn.de/go/geom/matrix"
 )
@@ -73,6 +78,8 @@ type Req struct {
 	Probe   bool       `json:"probe,omitempty"` // only the walker-specific probe call
 	Echo    bool       `json:"echo,omitempty"`  // return the input bytes with the done line
 	Calib   *CalibSpec `json:"calib,omitempty"`
+
+	info *caseInfo // parent side only
 }
 
 // CalibSpec lets the self-test plant a defect in the harness itself.
@@ -629,8 +636,39 @@ func (k *wk) deepWalk(r *pdf.Reader, refs []pdf.Reference, full bool) {
 		})
 	}
 
+	k.call("objwalk", "", 1, &gets, func() ([]string, error) {
+		wk := walker.New(g)
+		n := 0
+		for range wk.PreOrder() {
+			if n++; n > 400000 {
+				break
+			}
+		}
+		return nil, wk.Err
+	})
 	if meta != nil && meta.Catalog != nil {
 		cat := meta.Catalog
+		if cat.AcroForm != nil {
+			k.call("acroform", "", 1, &gets, func() ([]string, error) {
+				_, err := pdf.Decode(cur, cat.AcroForm, annotdecode.Form)
+				return nil, err
+			})
+		}
+		if cat.PageLabels != nil {
+			k.call("pagelabels", "", 1, &gets, func() ([]string, error) {
+				_, err := pagelabel.Extract(g, cat.PageLabels)
+				return nil, err
+			})
+		}
+		if cat.OpenAction != nil {
+			k.call("openaction", "", 1, &gets, func() ([]string, error) {
+				_, err := pdf.Decode(cur, cat.OpenAction, action.Decode)
+				if err != nil {
+					_, err = pdf.Decode(cur, cat.OpenAction, destination.Decode)
+				}
+				return nil, err
+			})
+		}
 		if cat.Outlines != 0 {
 			k.call("outline", "", 1, &gets, func() ([]string, error) {
 				o, err := pdf.Decode(cur, cat.Outlines, outline.Decode)
